@@ -40,7 +40,13 @@ func ZZ_C08_duplicatesWhilePausedOrFrozen() {
 	} else {
 		c.Pods = append(c.Pods, outdated, uptodate)
 	}
-	c.Pods = append(c.Pods, zzPod("outdated-1", zzNodeName(1), zzOldRS, zzHashOld, 0, corev1.PodRunning, true, nondet.Base().Add(durSec(-3600))))
+	lone := zzPod("outdated-1", zzNodeName(1), zzOldRS, zzHashOld, 0, corev1.PodRunning, true, nondet.Base().Add(durSec(-3600)))
+	// the lone outdated pod may be what a canary that ended without promotion left behind: it still
+	// carries the canary label; replacing it is an update like any other
+	if nondet.Bool("loneOutdatedPodIsOfAnEndedCanary") {
+		lone.Labels[datadoghqv1alpha1.ExtendedDaemonSetReplicaSetCanaryLabelKey] = datadoghqv1alpha1.ExtendedDaemonSetReplicaSetCanaryLabelValue
+	}
+	c.Pods = append(c.Pods, lone)
 	_, err := zzReconcile(zzReconciler(c, nondet.Bool("nodeAffinitySupported")), zzNS, rsNew.Name)
 	nondet.Assert("C08.dup.noerror", err == nil)
 	deleted := map[string]bool{}
